@@ -7,6 +7,7 @@ import WrglModel.Driver.C04
 import WrglModel.Driver.C06
 import WrglModel.Driver.C19
 import WrglModel.Driver.C01
+import WrglModel.Driver.C20
 open Lean Wrgl.Drv
 
 def dispatch (prop op : String) (input impl : Json) : Except String Json :=
@@ -18,6 +19,7 @@ def dispatch (prop op : String) (input impl : Json) : Except String Json :=
   | "C01" => handleC01 op input impl
   | "C02" => handleC02 op input impl
   | "C03" => handleC03 op input impl
+  | "C20" => handleC20 op input impl
   | _ => .error s!"unknown property {prop}"
 
 def handleLine (line : String) : Json :=
